@@ -164,7 +164,7 @@ def reader_offsets(prog):
             for nlen in sorted(set([0, 1, cap, cap + 1, top, (1 << (8 * ns)) - 1])):
                 if nlen >= (1 << (8 * ns)):
                     continue
-                for mle in (15, 256):
+                for mle, extra in ((15, 0), (256, 0), (15, 5)):        # extra: the tag answers more octets than READ BINARY asked for
                     n += 1
                     offs = []
 
@@ -175,12 +175,13 @@ def reader_offsets(prog):
                         if offset < ns:
                             return bytearray(nlen.to_bytes(ns, 'big')[offset:offset + min(mle, size)])
                         k = min(mle, size)
-                        return bytearray(k - 1 if k == size and size > 1 else k)      # the last octet is fetched by a read of its own
+                        k = k + extra if extra else (k - 1 if k == size and size > 1 else k)    # the last octet is fetched by a read of its own
+                        return bytearray((o * 7 + 3) % 251 for o in range(offset, offset + k))
                     env = {'self': _Self(), 'self._nlen_size': ns, 'self._capacity': cap, 'self.capacity': cap, 'self._max_le': mle,
                            'self._ndef_file': b'\xE1\x04', '__funcs__': {'hasattr': lambda o, a: True},
                            '__calls__': {'self._read_binary': read_binary, 'self._select_fid': lambda fid: True,
                                          'self._discover_ndef': lambda: True}}
-                    where = 'NLEN width %d, capacity %d, announced length %d, MLe %d' % (ns, cap, nlen, mle)
+                    where = 'NLEN width %d, capacity %d, announced length %d, MLe %d%s' % (ns, cap, nlen, mle, ', answers %d octets longer than requested' % extra if extra else '')
                     try:
                         r = fold_block(_body(f), env)
                     except NotConst as e:
@@ -189,7 +190,11 @@ def reader_offsets(prog):
                     if limit is not None and any(o >= limit for o in offs):
                         problems.append('%s: READ BINARY at offset %d, which the command cannot carry' % (where, max(offs)))
                     if r[0] == 'return' and r[1] is not None and (len(r[1]) > cap or len(r[1]) != nlen):
-                        problems.append('%s: a message of %d octets is accepted' % (where, len(r[1])))
+                        problems.append('%s: a message of %d octets is accepted (length > capacity or not the announced length)' % (where, len(r[1])))
+                    elif r[0] == 'return' and r[1] is not None and bytes(r[1]) != bytes((o * 7 + 3) % 251 for o in range(ns, ns + nlen)):
+                        problems.append('%s: the message returned is not the %d octets of the file behind the length field' % (where, nlen))
+                    elif r[0] == 'return' and r[1] is None and nlen <= cap:
+                        problems.append('%s: a message that fits the capacity is not read' % where)
                     if r[0] not in ('return',):
                         problems.append('%s: the reader ends with %s' % (where, r[0]))
     return problems, n
